@@ -36,8 +36,13 @@ def run_check(prop, tier, seed, replay=None):
         rng = random.Random(seed * 104729 + 10)
         nsim = 160 if tier == 'quick' else 2000
         bs = C.build_harness('srvfam', work); bc = C.build_harness('clifam', work)
+        emit_replay = None
         if replay:
-            rp = json.load(open(replay)); srv = [rp['scenario']] if rp['family'] == 'srv' else []; cli = [rp['scenario']] if rp['family'] == 'cli' else []
+            rp = json.load(open(replay))
+            if 'cell' in rp:      # a record of the emission table (see below): re-run that part only
+                emit_replay = rp['cell']; srv, cli = [], []
+            else:
+                srv = [rp['scenario']] if rp['family'] == 'srv' else []; cli = [rp['scenario']] if rp['family'] == 'cli' else []
         else:
             srv, cli = [], []
             for p in ('C01', 'C08', 'C09', 'C07'):
@@ -70,15 +75,35 @@ def run_check(prop, tier, seed, replay=None):
                 name = r['trace'][0]['scn']
                 path = C.save_replay(prop, name + '_recorded', dict(property=prop, family=fam[name], scenario=byname[name], rejected_at=r['at'], event=r['event'], trace=r['trace'], note='recorded trace; re-execution took another path'))
                 violations.append((name, path, r))
+        # "whole messages" over the input classes of spec/Emit.tla (method-name character classes x value classes x emission
+        # paths): every record captured on the channel must be a JSON object or a non-empty array of objects
+        emit_info = {}
+        if replay is None or emit_replay is not None:
+            from . import table_family as TF
+            et = os.path.join(work, 'emit.json')
+            rc, txt = C.run_tlc(work, 'Emit', 'SPECIFICATION Spec\n', workers=1, timeout=900, env={'OUT': et}, cfgname='emit_export.cfg')
+            if not os.path.exists(et) or 'Model checking completed' not in txt:
+                raise C.ToolError('TLC evaluation of Emit failed (rc=%s):\n%s' % (rc, txt[-3000:]))
+            be = C.build_harness('emitfam', work)
+            we = os.path.join(work, 'e'); os.makedirs(we)
+            re_, ce = TF.run_shards(be, 'TestEmit', we, C.NCPU, dict(VERIF_TABLE=et, VERIF_SEED=str(seed), VERIF_STRIDE='6' if tier == 'quick' and emit_replay is None else '1'), timeout=3000)
+            for c in ce:
+                if not TF.library_crash(c['log']):
+                    raise C.ToolError('emission shard crashed outside the library: ' + c['log'][-1500:])
+            emit_v = [v for r in re_ for v in (r.get('violations') or []) if v['property'] == prop and (emit_replay is None or v['cell'] == emit_replay)]
+            emit_info = dict(emit_cells=sum(r.get('cells', 0) for r in re_), emit_records_judged=sum(r.get('evaluations', 0) for r in re_))
+            for v in emit_v[:4]:
+                path = C.save_replay(prop, 'emit_%d' % (zlib.crc32(json.dumps(v, sort_keys=True).encode()) % 10**8), dict(v, property=prop))
+                violations.append(('emit ' + v['cell'][:120], path, dict(at=0, event=dict(record=v['record'][:200], why=v['why']))))
         probes = sum(t[0].get('st_probes', 0) for t in traces)
         sends = sum(1 for t in traces for e in t if e['ev'] == 'Send')
         cov = dict(states=sum(d['states'] for d in design) or 1, transitions=sum(d['transitions'] for d in design) or 1, design_runs=design,
                    traces_validated_against_impl=accepted + len(rej), scenarios=len(traces), evaluations=len(traces),
                    distinct_nontrivial=len({' '.join(e['ev'] + e.get('ch', '') for e in t if e['ev'] in KEEP) for t in traces}),
-                   overlap_probes=probes, send_events=sends,
+                   overlap_probes=probes, send_events=sends, **emit_info,
                    rule='workloads of the server and client families (TLC-simulated behaviours + directed histories) with in-operation probes: a goroutine is parked inside Send/Close '
                         'while every other goroutine and Stop/Notify/CancelRequest/Close are let loose; distinct = distinct sequences of channel events',
-                   samples=[dict(scenario=traces[0][0]['scn'], channel_events=[e['ev'] for e in traces[0] if e['ev'] in KEEP][:40])], exhaustive=False)
+                   samples=[dict(scenario=traces[0][0]['scn'], channel_events=[e['ev'] for e in traces[0] if e['ev'] in KEEP][:40])] if traces else [], exhaustive=False)
         C.write_evidence(prop, tier, seed, 'model_checking', cov, time.time() - t0, len(violations),
                          assumptions=['trusted: instrumented channel wrapper logs begin/end inside the methods on the calling goroutine'])
         for name, path, r in violations:
